@@ -39,7 +39,7 @@ def run(ctx):
                 "b.op(a) for add, subtract, multiply, divide, power) and reduce(f) over the join of three actions in every pair of "
                 "orders; (H) one Payload object handed to two operations (reduce over 2 / 4 inputs, batched reduce with uneven "
                 "batches, map) and to both builds; (U) unions (Cascade.from_actions, +, +=) of a generator source / a plain source with "
-                "the results of two programs whose nodes share a payload and read different outputs of one node; (V) one action containing "
+                "the results of two programs whose nodes share a payload and read different outputs of one node, and of two programs that differ only in a callable with an equal __name__; (V) one action containing "
                 "the same sub-expression twice (map+add of itself, batched normalisation) made into a Cascade alone / united with its source; (W) one from_source "
                 "array whose elements share the payload (1-d, 2-d, equal partials) followed by per-node operations and reductions; (S) pairs of "
                 "sources from those callables created by one or two from_source calls; (O) receiver in {A, A.map, D} x one or "
